@@ -127,7 +127,7 @@ def main(ctx):
     shapes += [[1, 1, 1, 1], [2, 1, 2, 1], [4, 4]] if ctx.quick else [[1, 1, 1, 1], [2, 1, 2, 1], [4, 4], [1, 1, 1, 1, 1, 1], [5, 5], [3, 1, 3, 1, 3]]   # larger-scope probes
     for shape in shapes:
         total = sum(shape)
-        for losses in ("improving", "never", "mixed", "to_zero"):
+        for losses in ("improving", "never", "mixed", "to_zero", "with_inf", "with_nan"):
             agents = []
             nscript = total  # non-bootstrap batches + one pending choice
             scripts = list(itertools.product((0, 1), repeat=min(nscript, 3 if ctx.quick else 4)))
@@ -139,6 +139,8 @@ def main(ctx):
             for ai, agent in enumerate(agents):
                 for samplers in (("with_halton", "without_halton") if ai % 2 == 0 else ("with_halton",)):
                     cfg = {"shape": shape, "losses": losses, "agent": agent, "samplers": samplers}
+                    if losses in ("with_inf", "with_nan") and ai % 3:
+                        continue
                     if losses == "to_zero":
                         if ai % 3:
                             continue
@@ -172,7 +174,13 @@ def main(ctx):
         for agent in ({"kind": "scripted", "script": [1, 0, 1]}, {"kind": "eps", "eps": 0.5, "seed": S, "alpha": 0.5}):
             for samplers in ("with_halton", "without_halton"):
                 cells.append({"cfg": {"shape": shape, "losses": "real", "agent": agent, "samplers": samplers, "seed": S}, "mode": "sync", "bound": None, "max_execs": 4000, "driver": "calibrator", "por": True})
-    ctx.bounds = {"shapes": shapes, "faults": "a batch failing (error or keyboard interrupt) before / after the agent's action was taken, at every batch of every non-final session of [2,2],[1,3],[3,2] (thorough: 6 shapes), followed by the remaining sessions",
+    # calibrate() calls that END THROUGH THE EARLY STOP (scripted losses, convergence precision 0), followed by further calls
+    for script in ([5.0, 4.0, 0.2, 3.0, 2.0, 1.0, 0.7], [5.0, 0.0, 4.0, 3.0, 0.1, 2.0], [5.0, 4.0, 3.0, 2.0, 0.3, 1.0]):
+        for shape in ([3, 2], [4, 1, 1], [2, 2, 2]):
+            for agent in ({"kind": "scripted", "script": [1, 0, 1, 1, 0]}, {"kind": "eps", "eps": 0.5, "seed": S, "alpha": 0.5}):
+                cells.append({"cfg": {"shape": shape, "losses": "real", "loss_script": script, "convergence_precision": 0, "agent": agent, "samplers": "with_halton", "seed": S},
+                              "mode": "sync", "bound": None, "max_execs": 4000, "driver": "calibrator", "por": True})
+    ctx.bounds = {"early_stop_sessions": "3 loss scripts x 3 shapes x 2 agents through the real Calibrator with convergence precision 0", "shapes": shapes, "faults": "a batch failing (error or keyboard interrupt) before / after the agent's action was taken, at every batch of every non-final session of [2,2],[1,3],[3,2] (thorough: 6 shapes), followed by the remaining sessions",
                   "second_driver": "real Calibrator.calibrate on [2],[1,2],[2,2] (thorough: 7 shapes), all interleavings modulo independence", "tierA": "ALL interleavings modulo commutation of independent steps (sleep-set reduction) for every shape and configuration; unreduced all-interleavings cross-check on shapes [1],[2]; unreduced search with preemption bound " + ("2" if ctx.quick else "3") + " on every fourth configuration of the larger shapes",
                   "tierB_shapes": tierb_shapes, "tierB_preemption_bound": "1" if ctx.quick else "2 (1 for > 4 batches)",
                   "agents": "all scripted action sequences over {0,1} (length <= 3 quick / 4 thorough) + eps-greedy eps {0,.5} seeds {S,S+1}",
